@@ -1,3 +1,4 @@
+//go:build verif
 // +build verif
 
 package world
@@ -22,7 +23,7 @@ var HookCounts = map[string]int{}
 // that stress runs visit the interleavings around storage writes and loads.
 func InstallYieldHook(seed int64) bool {
 	hookRand = rand.New(rand.NewSource(seed))
-	core.VerifHook = func(point string) {
+	hook := func(point string) {
 		hookMu.Lock()
 		HookCounts[point]++
 		n := hookRand.Intn(4)
@@ -33,5 +34,6 @@ func InstallYieldHook(seed int64) bool {
 			time.Sleep(d)
 		}
 	}
+	core.VerifHook = hook // the sys package's points call the same hook
 	return true
 }
